@@ -728,6 +728,24 @@ pub fn main(ctx: &Ctx) {
             c16_strategy(ctx.tier == vcore::Tier::Thorough),
             c16_eval,
         ),
+        "C17" => campaign(
+            ctx,
+            Campaign {
+                total_cases: ctx.pick(500, 15_000),
+                max_shrink_iters: 150,
+                limits: Limits { cpu_s: 30, wall_s: 180, as_bytes: 4 << 30 },
+                meta: Meta {
+                    rule: "2-4 participants with domain ids in {0,1} and domain tags in {\"\", \"a\"} (the factory configuration is changed between creations), announcement interval 0.5 s or 5 s, announcements lost/delayed/duplicated by a fault tape and optionally cross-delivered between domains, then a healed network; oracle: same (domain, tag) => mutual discovery within 3 announcement periods, different => never listed; a silently partitioned participant is still listed 500 ms before last-datagram + 100 s lease and gone 70 ms after it; an ignored participant is not listed 3 periods later; non-trivial = an isolation pair, a lease boundary, an ignore or an announcement fault was exercised; distinct = hash of the case",
+                    assumptions: &[
+                        "dust-dds participants always announce a 100 s lease; other lease values are not exercised",
+                        "lease reference instant = arrival of the last datagram (of any kind) from the silent participant, taken from the simulated network",
+                    ],
+                    nontrivial_floor: 100,
+                },
+            },
+            c17_strategy(),
+            c17_eval,
+        ),
         _ => unreachable!(),
     }
 }
@@ -1149,6 +1167,243 @@ pub fn c16_eval(case: &C16Case) -> CaseResult {
             }
         }
         Err(a) => apply_abort("C16", &mut res, a),
+    }
+    res.sim = sim_stats();
+    res
+}
+
+// ------------------------------------------------------------------------------------------
+// C17: participant discovery, domain isolation, lease expiry, ignore
+
+#[derive(Clone, Debug, Serialize, Deserialize)]
+pub struct C17P {
+    pub domain: u8,
+    pub tag: u8,
+}
+
+#[derive(Clone, Debug, Serialize, Deserialize)]
+pub struct C17Case {
+    pub participants: Vec<C17P>,
+    /// announcement interval class: 0 = 500 ms, 1 = 5 s
+    pub interval: u8,
+    /// deliver multicast announcements across domains (port collision / unicast peer list)
+    pub cross_domain: bool,
+    /// fault tape over metatraffic datagrams during the first phase
+    pub tape: Vec<u16>,
+    /// participant that crashes (index) and after how many ms
+    pub crash: Option<(u8, u16)>,
+    /// (who, whom): participant `who` ignores participant `whom`
+    pub ignore: Option<(u8, u8)>,
+}
+
+pub fn c17_strategy() -> BoxedStrategy<C17Case> {
+    (
+        prop::collection::vec((0u8..2, 0u8..2).prop_map(|(domain, tag)| C17P { domain, tag }), 2..5),
+        0u8..2,
+        any::<bool>(),
+        prop::collection::vec(prop_oneof![1 => Just(0u16), 2 => any::<u16>()], 0..60),
+        prop::option::weighted(0.5, (0u8..4, 0u16..12_000)),
+        prop::option::weighted(0.3, (0u8..4, 0u8..4)),
+    )
+        .prop_map(|(participants, interval, cross_domain, tape, crash, ignore)| C17Case { participants, interval, cross_domain, tape, crash, ignore })
+        .boxed()
+}
+
+#[derive(Default, Clone, Debug, Serialize, Deserialize)]
+struct C17Obs {
+    setup_error: Option<String>,
+    verdict: Option<(String, String)>,
+    classes: Vec<String>,
+}
+
+const LEASE_MS: u64 = 100_000;
+
+async fn c17_scenario(c: C17Case) -> C17Obs {
+    use crate::exec::with_world;
+    use dust_dds::dds_async::configuration::DustDdsConfigurationBuilder;
+    let mut o = C17Obs::default();
+    let f = factory();
+    let interval_ms: u64 = if c.interval == 0 { 500 } else { 5_000 };
+    with_world(|w| {
+        w.net.cross_domain = c.cross_domain;
+        w.net.tape = c.tape.iter().copied().collect();
+        w.net.attack_meta = true;
+        // announcements may be lost or delayed, never coalesced
+        w.net.menu = vec![
+            crate::net::Fate::Deliver(0),
+            crate::net::Fate::Deliver(0),
+            crate::net::Fate::Deliver(30 * crate::net::MS),
+            crate::net::Fate::Deliver(700 * crate::net::MS),
+            crate::net::Fate::Dup(10 * crate::net::MS),
+            crate::net::Fate::Drop,
+            crate::net::Fate::Drop,
+        ];
+    });
+    let mut ps = vec![];
+    for p in &c.participants {
+        {
+            let mut cfg = f.get_mut_configuration().await;
+            *cfg = DustDdsConfigurationBuilder::new()
+                .domain_tag(if p.tag == 0 { String::new() } else { "a".to_string() })
+                .participant_announcement_interval(core::time::Duration::from_millis(interval_ms))
+                .build()
+                .unwrap();
+        }
+        let dp = match f.create_participant(p.domain as i32, QosKind::Default, NO_LISTENER, NO_STATUS).await {
+            Ok(d) => d,
+            Err(e) => {
+                o.setup_error = Some(format!("create_participant: {e:?}"));
+                return o;
+            }
+        };
+        ps.push(dp);
+    }
+    let n = ps.len();
+    let handles: Vec<_> = ps.iter().map(|p| p.get_instance_handle()).collect();
+    let mut classes = std::collections::BTreeSet::new();
+    if !c.tape.is_empty() {
+        classes.insert("announcement_faults".to_string());
+    }
+    // let the tape run out, then heal: 3 announcement periods must suffice
+    let mut waited = 0u64;
+    while with_world(|w| !w.net.tape.is_empty()) && waited < 20 * interval_ms {
+        exec::sleep_ms(interval_ms / 2).await;
+        waited += interval_ms / 2;
+    }
+    with_world(|w| {
+        w.net.attack_meta = false;
+        w.net.tape.clear();
+    });
+    exec::sleep_ms(3 * interval_ms + 1_500).await;
+    let same = |a: usize, b: usize| c.participants[a].domain == c.participants[b].domain && c.participants[a].tag == c.participants[b].tag;
+    let discovered = |v: &Vec<dust_dds::infrastructure::instance::InstanceHandle>, h| v.contains(h);
+    for a in 0..n {
+        let list = match ps[a].get_discovered_participants().await {
+            Ok(l) => l,
+            Err(e) => {
+                o.setup_error = Some(format!("get_discovered_participants: {e:?}"));
+                return o;
+            }
+        };
+        for b in 0..n {
+            if a == b {
+                continue;
+            }
+            let d = discovered(&list, &handles[b]);
+            if same(a, b) && !d {
+                o.verdict = Some((
+                    "C17:not-discovered:same-domain-and-tag".into(),
+                    format!("participant {a} did not discover participant {b} (same domain id and tag) within 3 announcement periods ({} ms) after the network healed", 3 * interval_ms),
+                ));
+                return o;
+            }
+            if !same(a, b) && d {
+                let why = if c.participants[a].domain != c.participants[b].domain { "different-domain-id" } else { "different-domain-tag" };
+                classes.insert(format!("isolation_probe:{why}"));
+                o.verdict = Some((
+                    format!("C17:discovered-despite:{why}"),
+                    format!("participant {a} (domain {}, tag {}) lists participant {b} (domain {}, tag {}) as discovered", c.participants[a].domain, c.participants[a].tag, c.participants[b].domain, c.participants[b].tag),
+                ));
+                return o;
+            }
+            if !same(a, b) {
+                let why = if c.participants[a].domain != c.participants[b].domain { "different-domain-id" } else { "different-domain-tag" };
+                classes.insert(format!("isolation_probe:{why}{}", if c.cross_domain { ":cross-delivered" } else { "" }));
+            }
+        }
+    }
+    // ignore
+    if let Some((who, whom)) = c.ignore {
+        let (who, whom) = (who as usize % n, whom as usize % n);
+        if who != whom && same(who, whom) {
+            classes.insert("ignore".to_string());
+            if let Err(e) = ps[who].ignore_participant(handles[whom]).await {
+                o.setup_error = Some(format!("ignore_participant: {e:?}"));
+                return o;
+            }
+            exec::sleep_ms(3 * interval_ms + 500).await;
+            let list = ps[who].get_discovered_participants().await.unwrap_or_default();
+            if list.contains(&handles[whom]) {
+                o.verdict = Some(("C17:ignored-participant-listed".into(), format!("participant {who} ignored participant {whom} but still (or again) lists it 3 announcement periods later")));
+                return o;
+            }
+        }
+    }
+    // lease expiry
+    if let Some((x, after_ms)) = c.crash {
+        let x = x as usize % n;
+        let observers: Vec<usize> = (0..n).filter(|y| *y != x && same(x, *y) && c.ignore.map(|(w, m)| !(w as usize % n == *y && m as usize % n == x)).unwrap_or(true)).collect();
+        if !observers.is_empty() {
+            classes.insert("lease_probe".to_string());
+            exec::sleep_ms(after_ms as u64).await;
+            with_world(|w| w.net.endpoints[x].connected = false);
+            let crash_at = exec::now_ns();
+            // last datagram from x that reached each observer
+            let mut checks: Vec<(usize, u64)> = observers
+                .iter()
+                .map(|y| {
+                    let t0 = with_world(|w| {
+                        w.net
+                            .log
+                            .iter()
+                            .filter(|r| r.from == x && r.to == *y && !r.dropped && r.t_ns + r.delay_ns <= crash_at)
+                            .map(|r| r.t_ns + r.delay_ns)
+                            .max()
+                            .unwrap_or(crash_at)
+                    });
+                    (*y, t0)
+                })
+                .collect();
+            checks.sort_by_key(|c| c.1);
+            for (y, t0) in checks {
+                // still listed shortly before the lease runs out
+                let early = t0 + (LEASE_MS - 500) * 1_000_000;
+                let now = exec::now_ns();
+                if early > now {
+                    exec::sleep_ns(early - now).await;
+                    let list = ps[y].get_discovered_participants().await.unwrap_or_default();
+                    if !list.contains(&handles[x]) {
+                        o.verdict = Some((
+                            "C17:removed-before-lease".into(),
+                            format!("participant {y} removed silent participant {x} more than 500 ms before its 100 s lease ran out (last datagram received {} ms before the probe)", (exec::now_ns() - t0) / 1_000_000),
+                        ));
+                        return o;
+                    }
+                }
+                // gone one worker period after the lease ran out
+                let late = t0 + (LEASE_MS + 50 + 20) * 1_000_000;
+                let now = exec::now_ns();
+                if late > now {
+                    exec::sleep_ns(late - now).await;
+                }
+                let list = ps[y].get_discovered_participants().await.unwrap_or_default();
+                if list.contains(&handles[x]) {
+                    o.verdict = Some((
+                        "C17:still-listed-after-lease".into(),
+                        format!("participant {y} still lists silent participant {x} {} ms after the last datagram from it (lease 100 s + one 50 ms worker period)", (exec::now_ns() - t0) / 1_000_000),
+                    ));
+                    return o;
+                }
+            }
+        }
+    }
+    o.classes = classes.into_iter().collect();
+    o
+}
+
+pub fn c17_eval(case: &C17Case) -> CaseResult {
+    let mut res = CaseResult::default();
+    match exec::run(c17_scenario(case.clone())) {
+        Ok(o) => {
+            if let Some(e) = &o.setup_error {
+                res.harness_error = Some(e.clone());
+            } else {
+                res.verdict = o.verdict.clone();
+                res.classes = o.classes.clone();
+                res.nontrivial = o.classes.iter().any(|c| c.starts_with("lease") || c.starts_with("announcement") || c.starts_with("isolation") || c == "ignore");
+            }
+        }
+        Err(a) => apply_abort("C17", &mut res, a),
     }
     res.sim = sim_stats();
     res
